@@ -23,25 +23,27 @@ const ModPath = "github.com/magisterquis/curlrevshell"
 
 // Prog is the loaded program.
 type Prog struct {
-	Repo       string
-	Fset       *token.FileSet
-	Pkgs       []*packages.Package          /* Module packages, sorted by path. */
-	ByPath     map[string]*packages.Package /* Module packages by import path. */
-	SSA        *ssa.Program
-	SSAPkg     map[string]*ssa.Package  /* By import path. */
-	AllPkgs    int                      /* Number of packages seen, deps included. */
-	Overlay    map[string][]byte        /* In-memory file replacements (self-test mutants). */
-	funcs      []*ssa.Function          /* Source functions of the module, anons included. */
-	Flat       *ssa.FlattenStats        /* What helper inlining did. */
-	Helpers    []string                 /* Helper functions folded into their callers. */
-	Canon      int                      /* Operations rewritten to their canonical spelling. */
-	merged     map[string]*ssa.Function /* reference name → the function its body was written into */
-	renamed    map[string]*ssa.Function /* reference name → the function which took its place */
-	Lowered    int
-	ifaceNames map[string]bool /* method names of the module's own interface types */
-	Promoted   int             /* Functions whose struct parameters were replaced by their fields. */
-	Unrolled   int             /* Functions in which a loop over a literal table was unrolled. */
-	Devirt     int             /* Interface calls resolved to the one implementing type. */
+	Repo         string
+	Fset         *token.FileSet
+	Pkgs         []*packages.Package          /* Module packages, sorted by path. */
+	ByPath       map[string]*packages.Package /* Module packages by import path. */
+	SSA          *ssa.Program
+	SSAPkg       map[string]*ssa.Package  /* By import path. */
+	AllPkgs      int                      /* Number of packages seen, deps included. */
+	Overlay      map[string][]byte        /* In-memory file replacements (self-test mutants). */
+	funcs        []*ssa.Function          /* Source functions of the module, anons included. */
+	Flat         *ssa.FlattenStats        /* What helper inlining did. */
+	Helpers      []string                 /* Helper functions folded into their callers. */
+	Canon        int                      /* Operations rewritten to their canonical spelling. */
+	merged       map[string]*ssa.Function /* reference name → the function its body was written into */
+	renamed      map[string]*ssa.Function /* reference name → the function which took its place */
+	Lowered      int
+	Materialised int             /* loads of once-assigned package-level function tables replaced by the literal */
+	Forwarded    int             /* reference functions found to be forwarders to a new function which took over their body */
+	ifaceNames   map[string]bool /* method names of the module's own interface types */
+	Promoted     int             /* Functions whose struct parameters were replaced by their fields. */
+	Unrolled     int             /* Functions in which a loop over a literal table was unrolled. */
+	Devirt       int             /* Interface calls resolved to the one implementing type. */
 }
 
 // LoadOpts tunes loading.
@@ -398,6 +400,11 @@ func (p *Prog) flatten() {
 	for _, f := range tops {
 		ssa.CutNoReturn(f, func(c *ssa.Call) bool { return isNoReturn(c) })
 	}
+	/* A reference function kept as a forwarder to a new function which took
+	over its body (New → NewFromConfig(Config{…})): the callers of the new
+	function call the old one again, and the new one is then just a helper
+	of the old. */
+	p.collapseForwarders(tops)
 	/* "defer func() { if nil != err { undo() } }()" over a named result is
 	the undo on the error returns. */
 	for _, f := range tops {
@@ -417,6 +424,13 @@ func (p *Prog) flatten() {
 			ssa.FoldConstOps(f)
 			ssa.CaptureByValue(f)
 			ssa.LiftCells(f)
+		}
+	}
+	/* A package-level table which is never written after initialisation is,
+	where a loop ranges over it, the literal it was initialised with. */
+	for _, f := range tops {
+		if !isHelper(f) {
+			p.materialiseTables(f)
 		}
 	}
 	/* Loops over small literal tables are unrolled; calls through the
@@ -553,6 +567,262 @@ func (p *Prog) flatten() {
 	}
 	sort.Strings(p.Helpers)
 	p.funcs = out
+}
+
+// collapseForwarders: a reference function F whose whole body is "build a
+// struct of my parameters (or pass them on) and return G(…)", G being a
+// function of the same package which the reference tree does not have, is a
+// forwarder kept for compatibility.  Every other call of G is turned into a
+// call of F (each parameter of F read from the argument, or the field of the
+// argument, into which F puts it), so that G is called by F alone and is
+// folded into it like any helper.  Nothing is done unless every parameter of
+// F reaches G in exactly one place, every field of a struct F builds comes
+// from a parameter, and G is used in no other way than being called.
+func (p *Prog) collapseForwarders(tops []*ssa.Function) {
+	for _, f := range tops {
+		name := f.String()
+		if ref, ok := renameImage[f]; ok {
+			name = ref
+		}
+		if _, isRef := refInfo[name]; !isRef || nil == f.Blocks || 1 != len(f.Blocks) {
+			continue
+		}
+		var call *ssa.Call
+		ok := true
+		for _, i := range f.Blocks[0].Instrs {
+			switch x := i.(type) {
+			case *ssa.Call:
+				if nil != call {
+					ok = false
+				}
+				call = x
+			case *ssa.Alloc, *ssa.FieldAddr, *ssa.Store, *ssa.UnOp, *ssa.DebugRef, *ssa.Extract, *ssa.Return:
+			default:
+				ok = false
+			}
+		}
+		if !ok || nil == call {
+			continue
+		}
+		g := call.Common().StaticCallee()
+		if nil == g || g == f || nil == g.Blocks || g.Pkg != f.Pkg || nil != g.Parent() || "" != g.Synthetic {
+			continue
+		}
+		if _, gRef := refInfo[g.String()]; gRef {
+			continue
+		}
+		if _, gImg := renameImage[g]; gImg {
+			continue
+		}
+		if !types.Identical(f.Signature.Results(), g.Signature.Results()) || len(call.Common().Args) != len(g.Params) {
+			continue
+		}
+		/* The return hands back exactly what the call returned. */
+		ret, _ := f.Blocks[0].Instrs[len(f.Blocks[0].Instrs)-1].(*ssa.Return)
+		if nil == ret {
+			continue
+		}
+		good := true
+		for k, rv := range ret.Results {
+			if 1 == len(ret.Results) && rv == ssa.Value(call) {
+				continue
+			}
+			ex, isEx := rv.(*ssa.Extract)
+			if !isEx || ex.Tuple != ssa.Value(call) || ex.Index != k {
+				good = false
+			}
+		}
+		if !good {
+			continue
+		}
+		/* Where each parameter of f goes. */
+		from := make([]ssa.ArgFrom, len(f.Params))
+		set := make([]int, len(f.Params))
+		pidx := func(v ssa.Value) int {
+			for k, pa := range f.Params {
+				if ssa.Value(pa) == v {
+					return k
+				}
+			}
+			return -1
+		}
+		for j, a := range call.Common().Args {
+			if k := pidx(a); k >= 0 {
+				from[k] = ssa.ArgFrom{Arg: j, Field: -1}
+				set[k]++
+				continue
+			}
+			ld, isLd := a.(*ssa.UnOp)
+			if !isLd || token.MUL != ld.Op {
+				good = false
+				break
+			}
+			al, isAl := ld.X.(*ssa.Alloc)
+			if !isAl {
+				good = false
+				break
+			}
+			st, isSt := al.Type().Underlying().(*types.Pointer).Elem().Underlying().(*types.Struct)
+			if !isSt {
+				good = false
+				break
+			}
+			covered := map[int]bool{}
+			for _, r := range *al.Referrers() {
+				switch y := r.(type) {
+				case *ssa.FieldAddr:
+					for _, r2 := range *y.Referrers() {
+						s2, isStore := r2.(*ssa.Store)
+						if !isStore || s2.Addr != ssa.Value(y) {
+							good = false
+							continue
+						}
+						k := pidx(s2.Val)
+						if k < 0 || covered[y.Field] {
+							good = false
+							continue
+						}
+						covered[y.Field] = true
+						from[k] = ssa.ArgFrom{Arg: j, Field: y.Field}
+						set[k]++
+					}
+				case *ssa.UnOp:
+					if y != ld {
+						good = false
+					}
+				case *ssa.DebugRef:
+				default:
+					good = false
+				}
+			}
+			if len(covered) != st.NumFields() {
+				good = false
+			}
+		}
+		for _, n := range set {
+			if 1 != n {
+				good = false
+			}
+		}
+		if !good {
+			continue
+		}
+		/* Every use of g is a static call. */
+		var sites []ssa.CallInstruction
+		var scan func(h *ssa.Function)
+		scan = func(h *ssa.Function) {
+			for _, b := range h.Blocks {
+				for _, i := range b.Instrs {
+					ci, isCall := i.(ssa.CallInstruction)
+					var ops []*ssa.Value
+					for _, o := range i.Operands(ops) {
+						if nil == *o || *o != ssa.Value(g) {
+							continue
+						}
+						if !isCall || ci.Common().Value != ssa.Value(g) {
+							good = false
+							continue
+						}
+						if _, isPlain := i.(*ssa.Call); !isPlain {
+							good = false /* go g(…) / defer g(…) */
+							continue
+						}
+						if i != ssa.Instruction(call) {
+							sites = append(sites, ci)
+						}
+					}
+				}
+			}
+			for _, a := range h.AnonFuncs {
+				scan(a)
+			}
+		}
+		for _, h := range tops {
+			scan(h)
+		}
+		if !good {
+			continue
+		}
+		for _, site := range sites {
+			if !ssa.RedirectCall(site, f, from) {
+				good = false
+			}
+		}
+		p.Forwarded++
+		if "" != os.Getenv("CRS_FLATDEBUG") {
+			fmt.Fprintf(os.Stderr, "FORWARDER %s forwards to %s: %d other call sites of the latter redirected (ok=%v)\n", f, g, len(sites), good)
+		}
+	}
+}
+
+// materialiseTables: in f and its literals, every load of a package-level
+// slice variable of the module which is assigned once, in its package's
+// initialiser, a literal of at most 8 elements made of constants and function
+// values, written nowhere else and never through an element, whose only use
+// here is being ranged over or indexed, becomes that literal built locally
+// (ssa.MaterialiseTable), so that the loop over it is unrolled like any other
+// loop over a small literal.
+func (p *Prog) materialiseTables(f *ssa.Function) {
+	var loads []*ssa.UnOp
+	var scan func(g *ssa.Function)
+	scan = func(g *ssa.Function) {
+		for _, b := range g.Blocks {
+			for _, i := range b.Instrs {
+				u, ok := i.(*ssa.UnOp)
+				if !ok || token.MUL != u.Op {
+					continue
+				}
+				gl, ok := u.X.(*ssa.Global)
+				if !ok || !p.ownGlobal(gl) {
+					continue
+				}
+				if _, isSl := u.Type().Underlying().(*types.Slice); isSl {
+					loads = append(loads, u)
+				}
+			}
+		}
+		for _, a := range g.AnonFuncs {
+			scan(a)
+		}
+	}
+	scan(f)
+	for _, u := range loads {
+		once := p.globalOnce(u)
+		if nil == once {
+			continue
+		}
+		sl, ok := once.(*ssa.Slice)
+		if !ok || nil != sl.Low || nil != sl.High {
+			continue
+		}
+		arr, ok := sl.X.(*ssa.Alloc)
+		if !ok {
+			continue
+		}
+		t := tableFromArray(arr, nil)
+		if nil == t || t.N < 1 || t.N > 8 {
+			continue
+		}
+		/* Function-valued tables only: those are the ones whose loops hide
+		calls (other tables are read by the rules as they are). */
+		hasFunc := false
+		for _, row := range t.Cells {
+			for _, v := range row {
+				if _, isF := v.(*ssa.Function); isF {
+					hasFunc = true
+				}
+			}
+		}
+		if !hasFunc {
+			continue
+		}
+		if ssa.MaterialiseTable(u, t.N, t.Cells) {
+			p.Materialised++
+			if "" != os.Getenv("CRS_FLATDEBUG") {
+				fmt.Fprintf(os.Stderr, "MATERIALISED table %s in %s\n", u.X.Name(), f)
+			}
+		}
+	}
 }
 
 // promoteParams applies argument promotion (ssa.PromoteStructParams) to the
